@@ -137,7 +137,8 @@ def _nested_glob(case, key, log):
             if lg is not None:
                 lg.append({'who': self.parameters['who'], 'a': sorted(states['a'].keys()),
                            'g': {k: sorted(v['inner'].keys()) for k, v in states['g'].items()}})
-            return {}
+            # what it does depends on what it is shown: one unit per variable it sees below its glob port
+            return {'a': {'x': sum(len(v['inner']) for v in states['g'].values())}}
     obs = {'log': log}
     try:
         names = ['plain', 'over'] if case['order'] == 'plain-first' else ['over', 'plain']
@@ -145,7 +146,7 @@ def _nested_glob(case, key, log):
         dict_wired = case['how'] == 'nested_glob_dict'
         g = {'_path': ('G',), '*': {'inner': ('boundary',)}} if dict_wired else ('G',)
         topology = {n: {'a': ('A',) if n == 'over' else ('A2',), 'g': g} for n in names}
-        init = {'G': {'c0': {'boundary': {'x': 5, 'y': 6, 'z': 7}} if dict_wired else {}}}
+        init = {'G': {'c0': {'boundary': {'x': 5, 'y': 6, 'z': 7}} if dict_wired else {'inner': {'x': 5, 'y': 6}}}}
         if dict_wired:
             # the child's own process establishes its `boundary` store (a child of a dictionary-wired glob that exists
             # through the initial state only cannot be built: noted edge)
@@ -177,7 +178,11 @@ def _nested_glob(case, key, log):
         eng = Engine(processes=procs, topology=topology, initial_state=init,
                      emitter={'type': 'null'}, display_info=False, progress_bar=False)
         eng.update(case['ticks'])
-        obs['values'] = obs['expected_values'] = {}
+        st = eng.state.get_value()
+        obs['values'] = {'plain': st['A2']['x'], 'over': st['A']['x']}
+        # one declared variable per child and tick; the child added at the first tick is seen from the second on
+        per_tick = [1 + (1 if dict_wired and case.get('glob_child') and t >= 1 else 0) for t in range(case['ticks'])]
+        obs['expected_values'] = {'plain': sum(per_tick), 'over': sum(per_tick)}
         obs['declared'] = {'plain': {'a': ['x'], 'g': ['x']}, 'over': {'a': ['x'], 'g': ['y']}}
     except Exception as e:  # noqa
         obs['raised'] = f'{type(e).__name__}: {str(e)[:200]}'
